@@ -2,6 +2,7 @@ import Duckling.Model.Compile
 import Duckling.Lemmas.Mono
 import Duckling.Lemmas.Seq
 import Duckling.Lemmas.Chain
+import Duckling.Lemmas.LexDigits
 /-
   C14 — depth and iteration limits are exact and end in compile errors.
 
@@ -13,6 +14,10 @@ import Duckling.Lemmas.Chain
   * `C14_nest_exact`     **the limit is exact for every depth**: `k` IF / ELIF / ELSE blocks nested inside one another whose bodies run
                          (conditions true) around code that creates no stack compile with `d` stacks to spare iff `k ≤ d` — for
                          every `k` and every `d`, in every context and state: one more level is a StackOverflowError, one fewer is none;
+  * `C14_nest_exact_general`  the same for ANY mixture of one-level block lines (`OneLevel`: whatever block follows, it runs in exactly one new stack
+                         and nothing else can overflow): IF / ELIF / ELSE whose bodies run (`oneLevel_of_head`) and `REPEAT 1`
+                         (`oneLevel_repeat1`: through dispatch, the count read by the character scanner, one iteration, the count read again)
+                         — `REPEAT 1` in `ELSE` in `REPEAT 1` … `k` deep overflows with `d` stacks to spare iff `d < k`;
   * `C14_compile_nest_exact`  the same through `Compiler.compile`: a source that is such a nest of `k` blocks compiles under stack limit `L ≥ 1`
                          without StackOverflowError iff `k < L` — for every `k` and `L`;
   * `C14_sequential`     blocks that follow one another consume no depth: running `a ++ b` is running `a`
@@ -228,5 +233,135 @@ theorem C14_compile_nest_exact (opts : Opts) (hlim : 1 ≤ opts.stackLimit) (fs 
     · intro hk; exact ⟨e, rfl, hk⟩
   | crash x => simp [R.isSO]
   | oom w => simp [R.isSO]
+
+/-! ### the same for any kind of block line that creates exactly one level -/
+
+/-- a block line that, whatever block follows it, runs that block in exactly one new stack and cannot overflow otherwise -/
+def OneLevel (l : PreLine) : Prop :=
+  ∀ (child : Option ChildFn) (ctx : Ctx) (st : St) (body : List Node), body ≠ [] → ifFlag st = false →
+    ∃ (pos : Pos) (st0 : St) (file : Option Path) (cst : St) (k : Out → Res), (∀ r, (k r).isSO = false) ∧ ifFlag cst = false ∧
+      stepCmd child ctx l (some body) st = (runChild child ctx pos st0 body file cst >>= k)
+
+/-- block lines nested inside one another around `leaf` -/
+def nestL : List PreLine → List Node → List Node
+  | [], leaf => leaf
+  | l :: ls, leaf => [.line l, .block (nestL ls leaf)]
+
+theorem nestL_ne_nil (ls : List PreLine) (leaf : List Node) (hl : leaf ≠ []) : nestL ls leaf ≠ [] := by
+  cases ls with
+  | nil => exact hl
+  | cons h t => simp [nestL]
+
+/-- **exactness for any mixture of one-level block lines** (IF / ELIF / ELSE whose bodies run, `REPEAT 1`, …): `k` of them nested around
+    stack-free code overflow with `d` stacks to spare iff `d < k` -/
+theorem C14_nest_exact_general (leaf : List Node) (hl : leaf ≠ []) (hleaf : ∀ d ctx st, (exec d leaf ctx st).isSO = false) :
+    ∀ (ls : List PreLine), (∀ l ∈ ls, OneLevel l) →
+      ∀ (d : Nat) (ctx : Ctx) (st : St), ifFlag st = false → ((exec d (nestL ls leaf) ctx st).isSO = true ↔ d < ls.length) := by
+  intro ls
+  induction ls with
+  | nil => intro _ d ctx st _; simp [nestL, hleaf d ctx st]
+  | cons l rest ih =>
+    intro hall d ctx st hflag
+    have hbody := nestL_ne_nil rest leaf hl
+    have hcont : ∀ (child : Option ChildFn) (r : Out), ((if r.sig == .normal then runNodes child ctx [.block (nestL rest leaf)] r.st ([] ++ r.out)
+        else (.ok { st := r.st, out := [] ++ r.out, sig := r.sig } : Res))).isSO = false := by
+      intro child r; split <;> simp [runNodes, R.isSO]
+    have hstep : ∀ child, (runNodes child ctx (nestL (l :: rest) leaf) st []).isSO = (stepCmd child ctx l (some (nestL rest leaf)) st).isSO := by
+      intro child
+      simp only [nestL, runNodes, nextBlock]
+      exact isSO_bind_ok _ _ (hcont child)
+    cases d with
+    | zero =>
+      obtain ⟨pos, st0, file, cst, k, hk, _, heq⟩ := hall l List.mem_cons_self none ctx st _ hbody hflag
+      have : (exec 0 (nestL (l :: rest) leaf) ctx st).isSO = true := by
+        show (runNodes none ctx (nestL (l :: rest) leaf) st []).isSO = true
+        rw [hstep none, heq, isSO_bind_ok _ _ hk]
+        simp [runChild, overflowErr_isSO]
+      simp [this]
+    | succ d =>
+      obtain ⟨pos, st0, file, cst, k, hk, hcf, heq⟩ := hall l List.mem_cons_self (some (exec d)) ctx st _ hbody hflag
+      have : (exec (d + 1) (nestL (l :: rest) leaf) ctx st).isSO = (exec d (nestL rest leaf) (ctx.child pos file) cst).isSO := by
+        show (runNodes (some (exec d)) ctx (nestL (l :: rest) leaf) st []).isSO = _
+        rw [hstep (some (exec d)), heq, isSO_bind_ok _ _ hk]
+        rfl
+      rw [this, ih (fun x hx => hall x (List.mem_cons_of_mem _ hx)) d _ _ hcf]
+      simp
+
+/-- IF / ELIF / ELSE lines whose bodies run are one-level lines -/
+theorem oneLevel_of_head (h : Head) (hok : h.Ok) (hruns : h.Runs) : OneLevel h.l := by
+  intro child ctx st body hb hflag
+  obtain ⟨st', hpre⟩ := hruns ctx st hflag
+  let a : Arm := ⟨h.l, h.word, h.arg, body⟩
+  have haOk : a.Ok := ⟨hok.1, by
+    cases hn : body with
+    | nil => exact absurd hn hb
+    | cons x y => simp [hasBlockOf, a, hn], hok.2⟩
+  refine ⟨⟨h.l.num, none⟩, st', ctx.file, enterSt st', fun r => .ok { st := leave false st' r.st, out := r.out, sig := r.sig },
+    fun _ => rfl, ifFlag_enterSt st', ?_⟩
+  have := stepCmd_arm child ctx a haOk st
+  simp only [a] at this
+  rw [this, hpre]
+  simp only [R.bind_ok, runBlockAct]
+
+/-- the count `1` evaluates to 1 in every state (through the scanner: a digit string is one number token) -/
+theorem tokenizeCount_one (ctx : Ctx) (pos : Pos) (st : St) : tokenizeCount ctx pos st ['1'] = .ok 1 := by
+  have ht : tokenize st.env.allVars ['1'] = .ok (.int 1) := by
+    have := tokenize_digits st.env.allVars ['1'] (by simp) (by decide)
+    simpa [digitsVal] using this
+  have hlim : ¬ ((1 : Int) > (repeatLimit : Int)) := by decide
+  simp [tokenizeCount, evalIn, ht, liftO, hlim]
+
+def repeatRow : ClsDesc := (Generated.palette.find? (fun c => c.cname == "Repeat")).getD Generated.generic
+
+theorem repeatRow_facts : (repeatRow.cname == "Repeat" && repeatRow.isBlock && !repeatRow.flipperOnly && repeatRow.strip &&
+    repeatRow.argReq == .required) = true := by decide
+
+theorem dispatch_repeat : dispatch "REPEAT".toList true = some repeatRow := by decide
+
+/-- `REPEAT 1` followed by a block is a one-level line: one iteration in one new stack, then the count is read again and the loop ends -/
+theorem oneLevel_repeat1 (n : Nat) : OneLevel ⟨"REPEAT 1".toList, n⟩ := by
+  intro child ctx st body hb hflag
+  have hsplit : splitWs1 "REPEAT 1".toList = some ("REPEAT".toList, some ['1']) := by decide
+  have hhb : hasBlockOf (some body) = true := by
+    cases hn : body with
+    | nil => exact absurd hn hb
+    | cons x y => simp [hasBlockOf]
+  have hfacts := repeatRow_facts
+  simp only [Bool.and_eq_true, Bool.not_eq_true', beq_iff_eq] at hfacts
+  obtain ⟨⟨⟨⟨hcn, hblk⟩, hflip⟩, hstrip⟩, hreq⟩ := hfacts
+  have hlim : repeatLimit + 1 = (repeatLimit - 1 + 1) + 1 := by decide
+  let k : Out → Res := fun r =>
+    match afterIter st [] r with
+    | (st', out', some s) => .ok { st := st', out := out', sig := s }
+    | (st', out', none) => repeatLoop child ctx ⟨n, none⟩ none ['1'] body (repeatLimit - 1 + 1) 1 st' out'
+  have hk : ∀ r, (k r).isSO = false := by
+    intro r
+    simp only [k]
+    split
+    · rfl
+    · rw [repeatLoop]
+      simp [tokenizeCount_one, R.isSO]
+  refine ⟨⟨n, none⟩, st, ctx.file, enterSt st, k, hk, ifFlag_enterSt st, ?_⟩
+  have hstrip1 : strip ['1'] = ['1'] := by decide
+  have hpla : parseLoopArg ['1'] = (none, ['1']) := by decide
+  simp only [stepCmd, hsplit, hhb, dispatch_repeat, hblk, if_true, compileBlock, blockPre, hflip, hreq, hstrip, hcn, Option.map_some,
+    hstrip1, repeatPre, hpla, Option.getD_some, Bool.false_and, Bool.false_eq_true, if_false, List.isEmpty_cons, Bool.not_false,
+    Bool.true_and, Option.isSome_none, R.bind_ok, runBlockAct, show (ArgReq.required == ArgReq.notAllowed) = false from rfl,
+    show (ArgReq.required == ArgReq.required) = true from rfl, Bool.and_false, Bool.and_true, Bool.true_eq_false]
+  simp only [Bool.not_true, Bool.false_eq_true, if_false, R.bind_ok, runBlockAct]
+  rw [hlim, repeatLoop]
+  simp only [tokenizeCount_one, R.bind_ok, bindCounter]
+  cases child with
+  | none => simp [guardChild, runChild, overflowErr, bind]
+  | some c => rfl
+
+/-- non-vacuity: IF-less mixtures such as `REPEAT 1` in `ELSE` in `REPEAT 1` … are nests of one-level lines -/
+example : ∀ l ∈ [(⟨"REPEAT 1".toList, 1⟩ : PreLine), ⟨"ELSE".toList, 2⟩, ⟨"REPEAT 1".toList, 3⟩], OneLevel l := by
+  intro l hl
+  simp only [List.mem_cons, List.mem_nil_iff, or_false] at hl
+  rcases hl with rfl | rfl | rfl
+  · exact oneLevel_repeat1 1
+  · exact oneLevel_of_head ⟨⟨"ELSE".toList, 2⟩, "ELSE".toList, none⟩ (else_head_runs 2).1 (else_head_runs 2).2
+  · exact oneLevel_repeat1 3
 
 end Duckling.Props.C14
